@@ -107,6 +107,8 @@ type tkHandler struct {
 }
 
 type tkWorld struct {
+	diverged bool // the chain's vault differs from what an approved proposal dictated (C06 failure already reported)
+	stop     bool // no further rotation possible in this history
 	e    *Env
 	pool *ovmPool
 	out  *Out
@@ -357,7 +359,8 @@ func (w *tkWorld) promoConf(cap int32) rewardtypes.PromoterConf {
 // textual encoding. `exotic`: the new list additionally holds a second encoding of one of its keys (the tree as it
 // is accepts that, see C14); if the tree refuses it the plain list is proposed instead. Returns false if the vault
 // did not become the proposed one.
-func (w *tkWorld) rotate() bool {
+func (w *tkWorld) rotate() (ok bool) {
+	ok = true
 	old := append([]int{}, w.vkeys...)
 	keys := append([]int{}, old[1:]...)
 	keys = append(keys, w.nextKey)
@@ -409,6 +412,12 @@ func (w *tkWorld) rotate() bool {
 	}
 	if !submitted {
 		if err := submit(strs); err != nil {
+			if w.diverged {
+				// the chain's vault already differs from the one the approved proposal dictated (reported above):
+				// the keys the suite signs with are not the chain's any more; this history ends here
+				w.stop = true
+				return false
+			}
 			panic(fmt.Sprintf("ticket suite: rotation proposal refused: %v", err))
 		}
 	}
@@ -428,8 +437,25 @@ func (w *tkWorld) rotate() bool {
 		panic("ticket suite: ovm end-blocker panicked: " + what)
 	}
 	w.readVault()
-	if len(w.vkeys) != len(want) || w.vkeys[0] != keys[leader] {
-		return false
+	// the vault the signed and approved proposal dictates: its leader first, the other keys in the signed order
+	exp := []int{keys[leader]}
+	for i, k := range want {
+		if i != leader {
+			exp = append(exp, k)
+		}
+	}
+	same := len(w.vkeys) == len(exp)
+	for i := 0; same && i < len(exp); i++ {
+		same = w.vkeys[i] == exp[i]
+	}
+	if !same {
+		// C06: the effect of a ticket-bearing message is exactly the signed payload. Go on with the vault the payload
+		// dictates: tickets of its leader must be accepted from here on and tickets of every other key refused.
+		w.fail("rotation_installs_signed_vault", "vault-differs-from-approved-proposal",
+			"approved proposal %d signed keys %v with leader index %d (expected vault %v, leader first); the chain's vault is %v", pid, want, leader, exp, w.vkeys)
+		w.vkeys = exp
+		w.diverged = true
+		ok = false
 	}
 	for _, k := range old {
 		w.everIn[k] = true
@@ -445,7 +471,7 @@ func (w *tkWorld) rotate() bool {
 			w.removed = k
 		}
 	}
-	return true
+	return ok
 }
 
 // handlers lists the 17 ticket-bearing message types as they can be sent in the current state.
